@@ -29,6 +29,39 @@ CLAIMED = {
         "Payload alphabet {0,1,2}, frames of 1..2 bytes, <=3 frames per stream in the TLC family; long frames "
         "sampled beyond all pairs of cuts; zero-length frames excluded (consumer discards them).",
         "6/C16"),
+    "C01": (
+        "TLA+ spec Store.tla (last-write-wins merge, collapse, key normalisation): TLC checks NewestWins over all delivery "
+        "sequences; TLC-generated sequences and their re-orderings/re-batchings replayed through the NATS API of a real instance",
+        "The merge is model-checked over every delivery sequence of the collision-centred alphabet; generated sequences are "
+        "executed on a real instance with the complete read compared after every acknowledged write, followed by permuted, "
+        "re-partitioned and duplicated deliveries of the same points that must read the same.",
+        "3 identities, <=4 timestamps, batches <=2 in the model; concrete strings/values from pools; one known finding "
+        "(sign of -0.0).",
+        "6/C01"),
+    "C03": (
+        "TLA+ spec Store.tla (XOR Merkle hash as free Boolean group): TLC checks declarative CalcHash = incremental update in "
+        "every reachable state; behaviours replayed on a real instance with every stored hash compared with the prediction and "
+        "an independent recomputation",
+        "Every history over small graphs (points-first, edge-first, mirrors, diamonds, edges above populated subtrees, deletions, "
+        "stale writes) is checked in the model and replayed on the real store, where each edge's Hash must equal both the "
+        "documented definition recomputed from the replies and the image of the predicted atom set.",
+        "Graphs over root + 3 nodes, 2 point identities; CRC collisions abstracted in the model; diamond cancellation is a "
+        "known, design-inherent finding.",
+        "6/C03"),
+    "C05": (
+        "TLA+ spec Store.tla (guards and refusals): TLC checks Acyclic/RootNeverDeleted/RefusedLeavesNoTrace for every request "
+        "from every reachable state; behaviours replayed on a real instance observing reply, full tree dump and up.> behind a fence",
+        "Refusal classes at every position on every small graph are enumerated by TLC and replayed; a refused request must be "
+        "answered with an error, change nothing observable, publish nothing, and the instance must keep answering.",
+        "Root + 3 nodes; absence on up.> is asserted behind an acknowledged no-op on the same subscription and connection.",
+        "6/C05"),
+    "C06": (
+        "TLA+ spec Store.tla (rebroadcast fan-out): TLC checks operational republish = declarative live/any-ancestor set for "
+        "every request from every reachable state; behaviours replayed on a real instance with a subscription to up.>",
+        "All small graph shapes x written nodes x node/edge batches are enumerated; on the real instance the received subject "
+        "set must equal the predicted set exactly (multiplicity >= 1 allowed).",
+        "Root + 3 nodes; subjects of other behaviours sharing the instance are filtered by id prefix.",
+        "6/C06"),
     "C10": (
         "TLA+ spec Points.tla: Encode/Decode/Diff transcribed per field kind; TLC checks round-trip and diff/merge laws "
         "for all values and ordered pairs; every case replayed on the real data.Encode/Decode/DiffPoints/MergePoints",
